@@ -263,6 +263,12 @@ func (h *hb) access(tid int, p interface{}, write bool, site string) {
 			return
 		}
 		ptr = v.Pointer()
+	case reflect.Slice:
+		// the elements of a slice: keyed by its first element
+		if v.Len() == 0 {
+			return
+		}
+		ptr = v.Pointer()
 	case reflect.Ptr:
 		if v.IsNil() {
 			return
